@@ -91,9 +91,15 @@ import HexVerif.X.Sem
     of a call that is a whole right-hand side (`exec_usercallP`: the actuals with calls are evaluated
     first and parked in temporaries, as `genCallActuals` does); (V2 and V3) one call - ANY callee - as
     the first actual next to constants (`putval(rem(w, 256))`, `argsOK_first`).
-  Open: local `val`s and local arrays, calls of impure procedures in operands (X leaves the order open
-  only if the other operand is constant), a call of an impure callee in another actual than the first,
-  calls inside the actuals of a call that is an operand;
+    A CALL OF ANY FUNCTION IN AN OPERAND (V2 and V3, `Lemmas/XcmpIExpr.lean`): one call - the callee may
+    change globals, do I/O, terminate the program - under monadic `-`, `~` and under `+ - = ~= < <= > >=`
+    whose other operand is a constant (literal or name of a constant), nested to any depth; these are
+    the only operator expressions over an impure call whose value X defines (`X.orderOk`).  Allowed as
+    right-hand side, `return` value and as the condition of `if` / `while` (`CondOK` now leads from
+    the state before to the state after the condition, or to termination inside it).  The operator
+    shapes are proved once for triples `ExecT` with a state before and a state after.
+  Open: local `val`s and local arrays, `and` / `or` over an impure call, a call of an impure callee in
+  another actual than the first, calls inside the actuals of a call that is an operand;
   replacing the reflective checks by a proof that they always succeed.
 -/
 namespace Hex.C01
@@ -476,6 +482,44 @@ example : ∃ img, Xcmp.compile demoStr = .ok img := by
   | ok img => exact ⟨img, rfl⟩
   | error e =>
     have : (match Xcmp.compile demoStr with | .ok _ => true | .error _ => false) = true := by decide +kernel
+    rw [h] at this
+    simp at this
+
+/-- `val put = 1; val k = 5; var g; var n;
+     func next(val d) is { n := n + d; if n > 20 then 0(n) else skip; put(n + 48, 0); return n }
+     proc main() is var x;
+     { n := 0; x := next(2) + 1; g := k - (-next(x));
+       if 10 <= next(1) + k then x := 100 else skip;
+       while next(3) < 1000 do g := g + 1;
+       0(g + x) }` -/
+def demoIp : X.Program :=
+  { globals := [.val "put" (.num 1), .val "k" (.num 5), .var "g", .var "n"],
+    procs := [
+      { isFunc := true, name := "next", formals := [.val "d"], locals := [],
+        body := .seq [.assign "n" (.bin .plus (.name "n") (.name "d")),
+                      .ite (.bin .gr (.name "n") (.num 20)) (.syscall 0 [.name "n"]) .skip,
+                      .call "put" [.bin .plus (.name "n") (.num 48), .num 0],
+                      .ret (.name "n")] },
+      { isFunc := false, name := "main", formals := [], locals := [.var "x"],
+        body := .seq [.assign "n" (.num 0),
+                      .assign "x" (.bin .plus (.call "next" [.num 2]) (.num 1)),
+                      .assign "g" (.bin .minus (.name "k") (.un .neg (.call "next" [.name "x"]))),
+                      .ite (.bin .le (.num 10) (.bin .plus (.call "next" [.num 1]) (.name "k"))) (.assign "x" (.num 100)) .skip,
+                      .while (.bin .ls (.call "next" [.num 3]) (.num 1000)) (.assign "g" (.bin .plus (.name "g") (.num 1))),
+                      .syscall 0 [.bin .plus (.name "g") (.name "x")]] }] }
+
+/-! Non-vacuity for a call of an IMPURE function in an operand: `demoIp` (`next` changes a global,
+    writes a character and may terminate the program; it is called under `+ - <= <` and monadic `-`
+    next to constants, in right-hand sides, in the condition of an `if` and in the condition of a
+    `while`, where the program finally terminates INSIDE the call) is in the classes V2 and V3, has
+    a defined behaviour (seven characters written, exit value 21) and compiles. -/
+example : C01s.v2Ok demoIp = true := by decide +kernel
+example : behaviourIs (X.run demoIp ⟨[], fun _ => []⟩ 5000) 21 7 = true := by decide +kernel
+example : ∃ img, Xcmp.compile demoIp = .ok img := by
+  cases h : Xcmp.compile demoIp with
+  | ok img => exact ⟨img, rfl⟩
+  | error e =>
+    have : (match Xcmp.compile demoIp with | .ok _ => true | .error _ => false) = true := by decide +kernel
     rw [h] at this
     simp at this
 
